@@ -10,6 +10,20 @@ set_option linter.unusedVariables false
 
 namespace Inkayaku.Rs
 
+/-- `struct MagicConfiguration` (board/src/board/precalculated/magic.rs) -/
+structure MagicConfiguration where
+  /-- `u64` -/
+  mask : UInt64
+  /-- `u64` -/
+  magic : UInt64
+  /-- `u64` -/
+  hash_mask : UInt64
+  /-- `u32` -/
+  hash_shift : Int
+  /-- `Vec<u64>` -/
+  attacks : List UInt64
+deriving DecidableEq, Repr
+
 /-- `const fn magic_hash(mask: u64, hash_shift: u32, hash_mask: u64, magic: u64, occupancy: u64) -> usize` in `module level` (board/src/board/precalculated/magic.rs:181).
 * `mask` = parameter `mask: u64`
 * `hash_shift` = parameter `hash_shift: u32`
@@ -44,5 +58,13 @@ def MagicConfiguration.hash (mask : UInt64) (magic : UInt64) (hash_mask : UInt64
 `none` = panic (or out of fuel). -/
 def MagicConfiguration.get_attacks (mask : UInt64) (magic : UInt64) (hash_mask : UInt64) (hash_shift : Int) (attacks : List UInt64) (occupancy : UInt64) : Option UInt64 := do
   vecIdx attacks (← MagicConfiguration.hash mask magic hash_mask hash_shift occupancy)
+
+/-- `fn get_attacks(&self, square: SquareShiftBits, occupancy: u64) -> u64` in `impl UnsafeMagicsExt for Magics` (board/src/board/precalculated/magic.rs:13).
+* `self` = parameter `self: Vec<MagicConfiguration>`
+* `square` = parameter `square: u32`
+* `occupancy` = parameter `occupancy: u64`
+`none` = panic (or out of fuel). -/
+def Magics.get_attacks (self : List Inkayaku.Rs.MagicConfiguration) (square : Int) (occupancy : UInt64) : Option UInt64 := do
+  MagicConfiguration.get_attacks (← vecIdx self (cast .usize square)).mask (← vecIdx self (cast .usize square)).magic (← vecIdx self (cast .usize square)).hash_mask (← vecIdx self (cast .usize square)).hash_shift (← vecIdx self (cast .usize square)).attacks occupancy
 
 end Inkayaku.Rs
